@@ -9,6 +9,7 @@ PROPERTY_MODULES = {
     "C11": ["contracts.c05", "contracts.c11"],
     "C12": ["contracts.c12"],
     "C19": ["contracts.c19"],
+    "C20": ["contracts.c20"],
     "C16": ["contracts.c16"],
     "C17": ["contracts.c17"],
     "C18": ["contracts.c05", "contracts.c06", "contracts.c18"],
